@@ -171,7 +171,7 @@ func (p *ScriptedPlugin) VerifySignature(ctx context.Context, req *pf.VerifySign
 type ScriptedManager struct{ P *ScriptedPlugin }
 
 func (m ScriptedManager) Get(ctx context.Context, name string) (pf.Plugin, error) { return m.P, nil }
-func (m ScriptedManager) List(ctx context.Context) ([]string, error)               { return []string{"plug"}, nil }
+func (m ScriptedManager) List(ctx context.Context) ([]string, error)              { return []string{"plug"}, nil }
 
 // OKRevLegacy implements the deprecated revocation.Revocation interface and reports every certificate as OK.
 type OKRevLegacy struct{}
